@@ -16,7 +16,7 @@ from mc.ref import table as T
 
 PROPERTY = "C05"
 LEVEL = "exploration"
-RULE = ("cases = every table of 1..K rows (K=2 quick, 3 thorough) over 30 row kinds (good; surrounding blanks; embedded comma/semicolon/tab; "
+RULE = ("cases = every table of 1..K rows (K=2 quick, 3 thorough) over 36 row kinds (good; surrounding blanks; embedded comma/semicolon/tab; "
         "embedded newline; doubled quote; Unicode; Unicode line-separator characters inside a cell; short by one and by two cells; long; blank line; all-empty cells; bad date (out-of-range, 2-digit year, 3-digit month, underscore, sign, unpadded, other format); empty description; "
         "amount cells abc, empty, 0, 0.00, -0, nan, inf, -Infinity, (12.50), $1,234.50, 1.234,50, EUR 7, 1.234, 12,500, -45.10), each run under "
         "7 layouts (skip column, location, extra field mid/last, description template with capture last, '%d %b %y' dates) x 4 delimiters (comma, ';', "
